@@ -64,3 +64,26 @@ def p_merge(ctx):
                         text = f"replay crashed: {type(ex).__name__}: {ex}"
                 ctx.violation(name, {"function": FUNCTION, "model": e[1], "solver_output": str(e[1])[:600], "snippet": snippet},
                               confirmed, what=text)
+
+
+def p_merge_bytes(ctx):
+    """C10 / C12 side of the same contract: every key and value util.update_custom_metadata stores into key_value_metadata is
+    ensure_bytes(...) of what the caller gave - to_bytes sizes its buffer from len(str(key_value_metadata)), which counts
+    characters: a str value with non-ASCII text is copied past the budget (the known to_bytes findings start where this
+    obligation ends).  Only the set_* fold steps are reported here (C16 reports the whole contract)."""
+    try:
+        results = c16_merge.check(ctx, 10000 if ctx.tier == "quick" else 60000)
+    except Unsupported as ex:
+        ctx.obligation("update_custom_metadata.out_of_reach", FUNCTION, UNKNOWN, "engine", 0.0, detail=str(ex), sample=True)
+        return
+    for res in results:
+        for name in res.order:
+            if not re.search(r"\.(set_present|set_absent)\.", name):
+                continue
+            st = res.status(name)
+            e = next((x for x in res.d[name] if x[0] == st), res.d[name][0])
+            nm = name.replace("merge", "key_value_texts_are_bytes", 1)
+            ctx.obligation(nm, FUNCTION, st, e[3], sum(x[2] for x in res.d[name]), detail=e[4], model=e[1] if st == REFUTED else None, sample=True)
+            if st == REFUTED:
+                ctx.violation(nm, {"function": FUNCTION, "model": e[1], "solver_output": str(e[1])[:600], "snippet": None}, False,
+                              what="a key / value is stored without ensure_bytes: " + (e[4] or "")[:160])
